@@ -2,7 +2,10 @@
 
 package vctx
 
-import "context"
+import (
+	"context"
+	"time"
+)
 
 type Context = context.Context
 type CancelFunc = context.CancelFunc
@@ -16,3 +19,9 @@ func WithValue(parent Context, key, val interface{}) Context {
 	return context.WithValue(parent, key, val)
 }
 func WithCancel(parent Context) (Context, CancelFunc) { return context.WithCancel(parent) }
+func WithTimeout(parent Context, d time.Duration) (Context, CancelFunc) {
+	return context.WithTimeout(parent, d)
+}
+func WithDeadline(parent Context, t time.Time) (Context, CancelFunc) {
+	return context.WithDeadline(parent, t)
+}
